@@ -83,10 +83,14 @@ func ghostSpawn() bool { return true }
 
 // the age limit in effect: a negative request means the configured value
 func specEffDays(noGCDays int) int {
+	d := noGCDays
 	if noGCDays < 0 {
-		return Conf.NoGCDays
+		d = Conf.NoGCDays
 	}
-	return noGCDays
+	if d > specMaxDays { // a larger request is clamped: the limit is compared in seconds
+		return specMaxDays
+	}
+	return d
 }
 
 //@ func (dc *dataChunk) getFirstRecTs
@@ -122,7 +126,7 @@ func specEffDays(noGCDays int) int {
 //@   requires bkt.datas != nil && 0 <= bkt.datas.newHead && bkt.datas.newHead < MAX_NUM_CHUNK
 //@   requires forall(0, MAX_NUM_CHUNK, func(i int) bool { return len(bkt.datas.chunks[i].wbuf) > 0 ==> bkt.datas.chunks[i].wbuf[0] != nil })
 //@   requires 0 <= start && start <= MAX_NUM_CHUNK && Conf != nil
-//@   requires noGCDays <= specMaxDays && -specMaxDays <= Conf.NoGCDays && Conf.NoGCDays <= specMaxDays
+//@   requires -specMaxDays <= Conf.NoGCDays && Conf.NoGCDays <= specMaxDays
 //@   ensures err == nil ==> start-1 <= end && end <= bkt.datas.newHead-1
 //@   ensures err == nil && end >= start ==> bkt.datas.chunks[end].size > 0
 //@   ensures err == nil && endChunkID >= 0 ==> end <= endChunkID
@@ -139,7 +143,7 @@ func specEffDays(noGCDays int) int {
 //@   requires bkt.datas != nil && 0 <= bkt.datas.newHead && bkt.datas.newHead < MAX_NUM_CHUNK
 //@   requires forall(0, MAX_NUM_CHUNK, func(i int) bool { return len(bkt.datas.chunks[i].wbuf) > 0 ==> bkt.datas.chunks[i].wbuf[0] != nil })
 //@   requires 0 <= bkt.NextGCChunk && bkt.NextGCChunk <= MAX_NUM_CHUNK && Conf != nil
-//@   requires noGCDays <= specMaxDays && -specMaxDays <= Conf.NoGCDays && Conf.NoGCDays <= specMaxDays
+//@   requires -specMaxDays <= Conf.NoGCDays && Conf.NoGCDays <= specMaxDays
 //@   ensures err == nil ==> 0 <= start && start <= end && end <= bkt.datas.newHead-1                      // the head chunk (receiving appends) is never in range
 //@   ensures err == nil ==> bkt.datas.chunks[start].size > 0 && bkt.datas.chunks[end].size > 0
 //@   ensures err == nil && startChunkID >= 0 ==> startChunkID <= start
@@ -165,12 +169,11 @@ func specGCRunning(mgr *GCMgr, bkt *Bucket) bool {
 //@   ints math
 //@   unreachable_ok the second already-running test (under the write lock) can only fire when another goroutine registered in between; sequentially that return is dead
 //@   requires store.gcMgr != nil && store.gcMgr.stat != nil && Conf != nil && Conf.NumBucket <= len(store.buckets)
-//@   requires 0 <= bucketID                                  // O5: a negative bucket id is not rejected by the code (index panic)
-//@   requires bucketID < Conf.NumBucket ==> store.buckets[bucketID] != nil
-//@   requires bucketID < Conf.NumBucket && store.buckets[bucketID].State == BUCKET_STAT_READY ==> store.buckets[bucketID].datas != nil && 0 <= store.buckets[bucketID].datas.newHead && store.buckets[bucketID].datas.newHead < MAX_NUM_CHUNK
-//@   requires bucketID < Conf.NumBucket && store.buckets[bucketID].State == BUCKET_STAT_READY ==> forall(0, MAX_NUM_CHUNK, func(i int) bool { return len(store.buckets[bucketID].datas.chunks[i].wbuf) > 0 ==> store.buckets[bucketID].datas.chunks[i].wbuf[0] != nil })
-//@   requires bucketID < Conf.NumBucket && store.buckets[bucketID].State == BUCKET_STAT_READY ==> 0 <= store.buckets[bucketID].NextGCChunk && store.buckets[bucketID].NextGCChunk <= MAX_NUM_CHUNK
-//@   requires noGCDays <= specMaxDays && -specMaxDays <= Conf.NoGCDays && Conf.NoGCDays <= specMaxDays
+//@   requires 0 <= bucketID && bucketID < Conf.NumBucket ==> store.buckets[bucketID] != nil
+//@   requires 0 <= bucketID && bucketID < Conf.NumBucket && store.buckets[bucketID].State == BUCKET_STAT_READY ==> store.buckets[bucketID].datas != nil && 0 <= store.buckets[bucketID].datas.newHead && store.buckets[bucketID].datas.newHead < MAX_NUM_CHUNK
+//@   requires 0 <= bucketID && bucketID < Conf.NumBucket && store.buckets[bucketID].State == BUCKET_STAT_READY ==> forall(0, MAX_NUM_CHUNK, func(i int) bool { return len(store.buckets[bucketID].datas.chunks[i].wbuf) > 0 ==> store.buckets[bucketID].datas.chunks[i].wbuf[0] != nil })
+//@   requires 0 <= bucketID && bucketID < Conf.NumBucket && store.buckets[bucketID].State == BUCKET_STAT_READY ==> 0 <= store.buckets[bucketID].NextGCChunk && store.buckets[bucketID].NextGCChunk <= MAX_NUM_CHUNK
+//@   requires -specMaxDays <= Conf.NoGCDays && Conf.NoGCDays <= specMaxDays
 //@   modifies ghostClock(), ghostSpawn(), elems(store.gcMgr.stat)
 //@   ensures err != nil || pretend ==> ghostSpawned() == old(ghostSpawned())                                  // refused or pretend: nothing is started
 //@   ensures err == nil && !pretend ==> ghostSpawned() == old(ghostSpawned())+1                               // accepted: exactly one pass is started
